@@ -80,6 +80,11 @@ claim("C16", "fault_enumeration",
       "Every crash point between two consecutive file operations of every observer call is enumerated, with every prefix of the unflushed buffer as a surviving content: abstractly in Files.tla (Crash enabled in every state, modes 'a'/'w', documents growing and shrinking), on operation logs recorded from Logger / TrajectoryObserver / RestartObserver of grand-canonical runs (TLC applies the file semantics and judges all survivors in every state and the disk after every call), as bytes (torn chunks included) through the log-line check, ase.io.read and read_json, and with real processes on real files killed without flushing.",
       "Trusted: the file-semantics model (bound to CPython by comparing the model's disk with the real file after every run, and by the real-kill layer), ASE's readers. Crash model: the OS persists what was flushed or auto-flushed; no reordering, no torn sectors below the file API.", "5 C16")
 
+claim("C08", "model_checking",
+      "TLC on CPython's import machine over statement lists extracted from the working tree (Imports.tla, verdict per first import compared with a fresh interpreter) + TLC enumeration of serialization configurations (Serial.tla over an introspected catalogue) executed in fresh interpreters per first-import choice",
+      "Imports.tla executes the package's own top-level statements (re-extracted with ast on every run) for every public module as the first import; a `from X import n` that meets a partially initialised X is the ImportError, and the counterexample is the import chain; model and `python -c 'import m'` must agree in both directions. Serial.tla enumerates class x subset of constructor parameters / documented tunables set to non-default values (regular and falsy/edge variants) x nesting shapes (composites, nested composites, move-table entries, whole simulations); each configuration is round-tripped to_dict -> ase json -> lookup by registered name -> from_dict -> to_dict in a fresh interpreter and compared parameter by parameter and dictionary by dictionary.",
+      "Trusted: TLC, the ast extractor (function-local and TYPE_CHECKING imports are dropped), the recipes that say what a non-default value is. The catalogue is re-introspected on every run; a serializable class without a recipe is a machinery error, not a silent gap.", "5 C08")
+
 NOT_YET = "check not built yet in this round (planned in DESIGN.md section 5); will be claimed once its spec and conformance harness exist"
 
 
